@@ -275,9 +275,11 @@ def set_from_seq(interp, s: V.SymSeq):
             return sa
         Su = set_union(interp, lift_set(interp, sa), lift_set(interp, sb))
         Su.from_seq = s
+        Su.cached = True
         cache[key] = Su
         return Su
     S = V.SymSet(cx, "S")
+    S.cached = True
     cache[key] = S
     j = z3.Int("j!q")
     t = z3.Const("t!q", TenS)
@@ -1110,17 +1112,30 @@ def binop(interp, op, a, b, inplace=False):
     if isinstance(op, (ast.BitOr, ast.BitAnd)) and (isinstance(a, (set, frozenset, V.SymSet)) and isinstance(b, (set, frozenset, V.SymSet))):
         if isinstance(a, (set, frozenset)) and isinstance(b, (set, frozenset)) and not any(V.is_symbolic_key(x) for x in list(a) + list(b)):
             return (a | b) if isinstance(op, ast.BitOr) else (a & b)
+        def mutate(res):
+            # `a |= b` / `a &= b` on a set OBJECT: every holder of that object sees the new content (aliasing is modelled by the
+            # python object identity of the SymSet); sets that the encoding itself shares between program points cannot be mutated
+            if not (inplace and isinstance(a, V.SymSet)):
+                return res
+            if getattr(a, "cached", False):
+                raise Unsupported("in-place update of a set value that the encoding shares between program points")
+            res = lift_set(interp, res)
+            a.arr, a.card, a._seq = res.arr, None, None
+            for attr in ("from_seq",):
+                if hasattr(a, attr):
+                    delattr(a, attr)
+            return a
         if isinstance(op, ast.BitOr):
             if isinstance(a, (set, frozenset)) and not a:
                 return b
             if isinstance(b, (set, frozenset)) and not b:
                 return a
-            return set_union(interp, lift_set(interp, a), lift_set(interp, b))
+            return mutate(set_union(interp, lift_set(interp, a), lift_set(interp, b)))
         la, lb = lift_set(interp, a), lift_set(interp, b)
         S = V.SymSet(interp.cx, "inter")
         t = z3.Const("t!q", TenS)
         interp.cx.assume(V.forall([t], S.contains(t) == z3.And(la.contains(t), lb.contains(t))), tag="set-intersection")
-        return S
+        return mutate(S)
     if isinstance(op, ast.BitOr):
         from .interp import SymObj
         if isinstance(a, SymObj):
